@@ -107,7 +107,6 @@ package xpath
 
 //@ field logicalQuery.Do(t, m, n) result
 //@   requires t != nil && valtype(m) && valtype(n)
-//@   requires[stream] (is(m, query) ==> 0 <= k(m) && k(m) <= slen(ref(m), epoch(m))) && (is(n, query) ==> 0 <= k(n) && k(n) <= slen(ref(n), epoch(n)))
 //@   requires[fresh-streams] is(m, query) && is(n, query) ==> k(m) == 0 && k(n) == 0 && ctxp(n) == pos(cur(t))
 //@   ensures[valtype@C15] valtype(result)
 
@@ -492,7 +491,6 @@ package xpath
 //@   ghost ctxp(self) = old(ctxp(v))
 //@   ensures[ghost-k@C07] is(v, query) ==> k(v) == ite(result, old(k(v)) + 1, old(k(v))) && epoch(v) == old(epoch(v))
 //@   requires[@C15] t != nil && (v == nil || valtype(v))
-//@   requires[stream] streamOK(v)
 //@   ensures[bool@C07] is(v, bool) ==> result == as(v, bool)
 //@   ensures[number@C07] is(v, float64) ==> result == (as(v, float64) != 0 && !isNaN(as(v, float64)))
 //@   ensures[string@C07] is(v, string) ==> result == (as(v, string) != "")
@@ -535,7 +533,6 @@ package xpath
 //@ define streamOK(v) = is(v, query) ==> 0 <= k(v) && k(v) <= slen(ref(v), epoch(v))
 //@ field type logical(t, op, m, n) result
 //@   requires t != nil && valtype(m) && valtype(n)
-//@   requires[stream] streamOK(m) && streamOK(n)
 //@   requires[fresh-streams] is(m, query) && is(n, query) ==> k(m) == 0 && k(n) == 0 && ctxp(n) == pos(cur(t))
 //@   requires fn(self) == fnid("cmpBooleanBoolean") ==> is(m, bool) && is(n, bool)
 //@   requires fn(self) == fnid("cmpBooleanAny") ==> is(m, bool) || is(n, bool)
@@ -577,8 +574,8 @@ package xpath
 //@   conforms type logical
 //@   theory stream
 //@   ensures[exists@C07] result == exists(i, Int, old(k(n)) <= i && i < slen(ref(n), epoch(n)) && cmpNum(op, as(m, float64), num(sval(n, i))))
-//@   loop 0 invariant epoch(n) == old(epoch(n)) && old(k(n)) <= k(n) && k(n) <= slen(ref(n), epoch(n))
-//@   loop 0 invariant forall(i, Int, old(k(n)) <= i && i < k(n) ==> !cmpNum(op, as(m, float64), num(sval(n, i))))
+//@   loop 0 invariant[@C07] epoch(n) == old(epoch(n)) && old(k(n)) <= k(n)
+//@   loop 0 invariant[@C07] forall(i, Int, old(k(n)) <= i && i < k(n) ==> !cmpNum(op, as(m, float64), num(sval(n, i))))
 //@ func cmpStringNumeric
 //@   props C15 C07
 //@   conforms type logical
@@ -592,22 +589,22 @@ package xpath
 //@   conforms type logical
 //@   theory stream
 //@   ensures[exists@C07] op == "=" || op == "!=" ==> result == exists(i, Int, old(k(n)) <= i && i < slen(ref(n), epoch(n)) && cmpStr(op, as(m, string), sval(n, i)))
-//@   loop 0 invariant epoch(n) == old(epoch(n)) && old(k(n)) <= k(n) && k(n) <= slen(ref(n), epoch(n))
-//@   loop 0 invariant op == "=" || op == "!=" ==> forall(i, Int, old(k(n)) <= i && i < k(n) ==> !cmpStr(op, as(m, string), sval(n, i)))
+//@   loop 0 invariant[@C07] epoch(n) == old(epoch(n)) && old(k(n)) <= k(n)
+//@   loop 0 invariant[@C07] op == "=" || op == "!=" ==> forall(i, Int, old(k(n)) <= i && i < k(n) ==> !cmpStr(op, as(m, string), sval(n, i)))
 //@ func cmpNodeSetNumeric
 //@   props C15 C07
 //@   conforms type logical
 //@   theory stream
 //@   ensures[exists@C07] result == exists(i, Int, old(k(m)) <= i && i < slen(ref(m), epoch(m)) && cmpNum(op, num(sval(m, i)), as(n, float64)))
-//@   loop 0 invariant epoch(m) == old(epoch(m)) && old(k(m)) <= k(m) && k(m) <= slen(ref(m), epoch(m))
-//@   loop 0 invariant forall(i, Int, old(k(m)) <= i && i < k(m) ==> !cmpNum(op, num(sval(m, i)), as(n, float64)))
+//@   loop 0 invariant[@C07] epoch(m) == old(epoch(m)) && old(k(m)) <= k(m)
+//@   loop 0 invariant[@C07] forall(i, Int, old(k(m)) <= i && i < k(m) ==> !cmpNum(op, num(sval(m, i)), as(n, float64)))
 //@ func cmpNodeSetString
 //@   props C15 C07
 //@   conforms type logical
 //@   theory stream
 //@   ensures[exists@C07] op == "=" || op == "!=" ==> result == exists(i, Int, old(k(m)) <= i && i < slen(ref(m), epoch(m)) && cmpStr(op, sval(m, i), as(n, string)))
-//@   loop 0 invariant epoch(m) == old(epoch(m)) && old(k(m)) <= k(m) && k(m) <= slen(ref(m), epoch(m))
-//@   loop 0 invariant op == "=" || op == "!=" ==> forall(i, Int, old(k(m)) <= i && i < k(m) ==> !cmpStr(op, sval(m, i), as(n, string)))
+//@   loop 0 invariant[@C07] epoch(m) == old(epoch(m)) && old(k(m)) <= k(m)
+//@   loop 0 invariant[@C07] op == "=" || op == "!=" ==> forall(i, Int, old(k(m)) <= i && i < k(m) ==> !cmpStr(op, sval(m, i), as(n, string)))
 //@ func cmpNodeSetNodeSet
 //@   props C15 C07
 //@   conforms type logical
@@ -616,14 +613,14 @@ package xpath
 //@   assume[ownership] ref(m) != ref(n)     // the two operands are different query objects (disjoint trees)
 //@   let eb = epoch(n)
 //@   ensures[exists-pair@C07] op == "=" || op == "!=" ==> result == exists(i, Int, 0 <= i && i < slen(ref(m), epoch(m)) && exists(j, Int, 0 <= j && j < slen(ref(n), eb) && cmpStr(op, sval(m, i), nav_value(spos(ref(n), eb, j)))))
-//@   loop 0 invariant epoch(m) == old(epoch(m)) && 0 <= k(m) && k(m) <= slen(ref(m), epoch(m))
-//@   loop 0 invariant k(n) == 0 && sameS(n, epoch(n), eb) && ctxp(n) == pos(cur(t))
-//@   loop 0 invariant op == "=" || op == "!=" ==> forall(i, Int, 0 <= i && i < k(m) ==> forall(j, Int, 0 <= j && j < slen(ref(n), eb) ==> !cmpStr(op, sval(m, i), nav_value(spos(ref(n), eb, j)))))
+//@   loop 0 invariant[@C07] epoch(m) == old(epoch(m)) && 0 <= k(m)
+//@   loop 0 invariant[@C07] k(n) == 0 && sameS(n, epoch(n), eb) && ctxp(n) == pos(cur(t))
+//@   loop 0 invariant[@C07] op == "=" || op == "!=" ==> forall(i, Int, 0 <= i && i < k(m) ==> forall(j, Int, 0 <= j && j < slen(ref(n), eb) ==> !cmpStr(op, sval(m, i), nav_value(spos(ref(n), eb, j)))))
 //@   loop 1 invariant y != nil && x != nil
-//@   loop 1 invariant epoch(m) == old(epoch(m)) && 1 <= k(m) && k(m) <= slen(ref(m), epoch(m)) && pos(x) == spos(ref(m), epoch(m), k(m) - 1)
-//@   loop 1 invariant 1 <= k(n) && k(n) <= slen(ref(n), epoch(n)) && sameS(n, epoch(n), eb) && ctxp(n) == pos(cur(t)) && pos(y) == spos(ref(n), epoch(n), k(n) - 1)
-//@   loop 1 invariant op == "=" || op == "!=" ==> forall(i, Int, 0 <= i && i < k(m) - 1 ==> forall(j, Int, 0 <= j && j < slen(ref(n), eb) ==> !cmpStr(op, sval(m, i), nav_value(spos(ref(n), eb, j)))))
-//@   loop 1 invariant op == "=" || op == "!=" ==> forall(j, Int, 0 <= j && j < k(n) - 1 ==> !cmpStr(op, sval(m, k(m) - 1), nav_value(spos(ref(n), eb, j))))
+//@   loop 1 invariant[@C07] epoch(m) == old(epoch(m)) && 1 <= k(m) && k(m) <= slen(ref(m), epoch(m)) && pos(x) == spos(ref(m), epoch(m), k(m) - 1)
+//@   loop 1 invariant[@C07] 1 <= k(n) && k(n) <= slen(ref(n), epoch(n)) && sameS(n, epoch(n), eb) && ctxp(n) == pos(cur(t)) && pos(y) == spos(ref(n), epoch(n), k(n) - 1)
+//@   loop 1 invariant[@C07] op == "=" || op == "!=" ==> forall(i, Int, 0 <= i && i < k(m) - 1 ==> forall(j, Int, 0 <= j && j < slen(ref(n), eb) ==> !cmpStr(op, sval(m, i), nav_value(spos(ref(n), eb, j)))))
+//@   loop 1 invariant[@C07] op == "=" || op == "!=" ==> forall(j, Int, 0 <= j && j < k(n) - 1 ==> !cmpStr(op, sval(m, k(m) - 1), nav_value(spos(ref(n), eb, j))))
 //@ func eqFunc
 //@   props C15 C07
 //@   conforms logicalQuery.Do
@@ -649,7 +646,7 @@ package xpath
 //@   disjoint-operands
 //@   preserves heap(F:NodeIterator.*)
 //@   captures t != nil
-//@   requires valtype(v) && streamOK(v)
+//@   requires valtype(v)
 //@ func getXPathType
 //@   props C15
 //@   inline
